@@ -149,6 +149,10 @@ def run(ctx):
                     if pn == "non-ascii":
                         for enc in ("ascii", "cp1252"):
                             jobs.append((pn, "cli-s@" + enc, "-", seed, tm, ["-m", "nada_dsl.compile", "-s", b64]))
+            # base64 as the `base64` tool, base64.encodebytes and MIME write it: lines of 76 characters
+            mime = base64.encodebytes(text.encode()).decode()
+            jobs.append((pn, "cli-s+mime", "-", seeds[0], "", ["-m", "nada_dsl.compile", "-s", mime]))
+            jobs.append((pn, "api-string+mime", "-", seeds[0], "", [os.path.join(d, "api_string.py"), mime]))
 
         def one(job):
             pn, entry, name, seed, tm, args = job
